@@ -1066,6 +1066,21 @@ func isSizeHelper(h *ssa.Function) bool {
 		n++
 		switch x := ret.Results[0].(type) {
 		case *ssa.Call:
+			if x.Call.IsInvoke() && x.Call.Method.Name() != "Size" && fromParam(x.Call.Value) && core.CalleesOfSite != nil {
+				// a method of the containers that hands back the recorded byte count (consumed()): every implementation
+				// returns constants plus one field of its receiver
+				cals := core.CalleesOfSite(x)
+				good := len(cals) > 0
+				for _, cal := range cals {
+					if !recordedSizeMethod(cal) {
+						good = false
+					}
+				}
+				if !good {
+					ok = false
+				}
+				break
+			}
 			if !(x.Call.IsInvoke() && x.Call.Method.Name() == "Size" && fromParam(x.Call.Value)) {
 				ok = false
 			}
@@ -1080,6 +1095,48 @@ func isSizeHelper(h *ssa.Function) bool {
 		}
 	})
 	return ok && n > 0
+}
+
+// recordedSizeMethod: a module method whose single return is a sum of non-negative constants and one field of its receiver.
+func recordedSizeMethod(f *ssa.Function) bool {
+	if f == nil || !core.InModule(f) || len(f.Blocks) == 0 || len(f.Params) != 1 {
+		return false
+	}
+	rets := core.Returns(f)
+	if len(rets) != 1 || len(rets[0].Results) != 1 {
+		return false
+	}
+	fields := 0
+	var sum func(v ssa.Value, d int) bool
+	sum = func(v ssa.Value, d int) bool {
+		if d > 6 {
+			return false
+		}
+		switch x := core.StripConv(v).(type) {
+		case *ssa.Const:
+			k, isK := core.ConstInt(x)
+			return isK && k >= 0
+		case *ssa.BinOp:
+			return x.Op == token.ADD && sum(x.X, d+1) && sum(x.Y, d+1)
+		case *ssa.UnOp:
+			if fa, isFA := x.X.(*ssa.FieldAddr); isFA && x.Op == token.MUL {
+				root := fa.X
+				for {
+					if f2, ok := root.(*ssa.FieldAddr); ok {
+						root = f2.X
+						continue
+					}
+					break
+				}
+				if root == ssa.Value(f.Params[0]) {
+					fields++
+					return true
+				}
+			}
+		}
+		return false
+	}
+	return sum(rets[0].Results[0], 0) && fields == 1
 }
 
 func sameSliceValue(a, b ssa.Value) bool {
@@ -1745,6 +1802,10 @@ func checkCplx(c *Ctx) {
 					skip := false
 					for _, t := range excl {
 						if types.Identical(t, cal.Signature.Recv().Type()) {
+							skip = true
+						}
+						// a failed assertion to an interface excludes every type that implements it
+						if it, isI := t.Underlying().(*types.Interface); isI && types.Implements(cal.Signature.Recv().Type(), it) {
 							skip = true
 						}
 					}
